@@ -10,8 +10,7 @@ open RelEdit
 let variant : RelEdit.variant =
   let mk f =
     { fx_insert_first = f "insert-first"; fx_append_sep = f "append-sep"; fx_pipe = f "pipe";
-      fx_mut_root = f "mut-root"; fx_add_profile = f "add-profile"; fx_entry_push = f "entry-push";
-      fx_builder_archs = f "builder-archs"; fx_version_pos = f "version-pos"; fx_remove_last = f "remove-last";
+      fx_entry_push = f "entry-push"; fx_version_pos = f "version-pos"; fx_remove_last = f "remove-last";
       fx_first_substvar = f "first-substvar"; fx_replace_ws = f "replace-ws" } in
   match (try Sys.getenv "VERIF_C11_MODEL" with Not_found -> "fixed") with
   | "shipped" -> RelEdit.shipped
@@ -31,12 +30,20 @@ let nat s = nat_of_int (int_of_string s)
 
 let vc_of = function
   | "ge" -> VGe | "le" -> VLe | "eq" -> VEq | "gt" -> VGt | "lt" -> VLt | _ -> failwith "bad vc"
+exception Bad_version
+(* a version operand is a debversion::Version: what the code sees of it is Display(FromStr(text)),
+   modelled by RelAcc.debversion_roundtrip; a text that is not a version makes the operand an error *)
 let ver_of (s : string) =
   if s = "-" then None
   else match S.index_opt s '.' with
-    | Some i -> Some (vc_of (S.sub s 0 i), u (S.sub s (i + 1) (S.length s - i - 1)))
+    | Some i ->
+      (match RelAcc.debversion_roundtrip (u (S.sub s (i + 1) (S.length s - i - 1))) with
+       | Ok v -> Some (vc_of (S.sub s 0 i), v)
+       | _ -> raise Bad_version)
     | None -> failwith "bad ver"
-let strs_of s = if s = "-" then [] else L.map u (S.split_on_char '.' s)
+let strs_of s = if s = "-" || s = "_" then [] else L.map u (S.split_on_char '.' s)
+(* builder: "-" .architectures() not called, "_" called with an empty vec; lossy: "!" None *)
+let archs_opt_of s = if s = "-" || s = "!" then None else Some (strs_of s)
 let group_of s =
   if s = "-" || s = "_" then []
   else L.map (fun p -> let n = u (S.sub p 1 (S.length p - 1)) in
@@ -49,7 +56,7 @@ let relspec_of (spec : string) : relspec =
   | ["p"; t] -> RSParse (u t)
   | ["s"; n] -> RSSimple (u n)
   | ["n"; n; v] -> RSNew (u n, ver_of v)
-  | ["b"; n; v; q; a; p; ap] -> RSBuild (u n, ver_of v, opt_of q, strs_of a, groups_of p @ groups_of ap)
+  | ["b"; n; v; q; a; p; ap] -> RSBuild (u n, ver_of v, opt_of q, archs_opt_of a, groups_of p @ groups_of ap)
   | ["l"; n; v; q; a; p] -> RSLossy (u n, ver_of v, opt_of q, (if a = "!" then None else Some (strs_of a)), groups_of p)
   | _ -> failwith ("bad relation spec " ^ spec)
 
@@ -98,16 +105,21 @@ let op_of (s : string) : op =
 let vc_text = function VGe -> ">=" | VLe -> "<=" | VEq -> "=" | VGt -> ">>" | VLt -> "<<"
 let hexa s = let b = Buffer.create 8 in S.iter (fun c -> Buffer.add_string b (Printf.sprintf "%02x" (Char.code c))) s; Buffer.contents b
 let profile_s = function PEnabled n -> "e" ^ hx n | PDisabled n -> "d" ^ hx n
+exception Dump_panic
 let relrec_s (r : relrec) =
   let qual = match r.rr_qual with None -> "-" | Some q -> hx q in
-  let ver = match r.rr_ver with None -> "-" | Some (vc, v) -> hexa (vc_text vc) ^ "." ^ hx v in
+  let ver = match r.rr_ver with
+    | None -> "-"
+    | Some (vc, v) -> (match RelAcc.debversion_roundtrip v with
+        | Ok v' -> hexa (vc_text vc) ^ "." ^ hx v'
+        | _ -> raise Dump_panic) in
   let archs = match r.rr_archs with None -> "-" | Some [] -> "_" | Some l -> cat "." (L.map hx l) in
   let groups = L.map (fun g -> if g = [] then "_" else cat "." (L.map profile_s g)) r.rr_profs in
   let profs = if groups = [] then "-" else cat "+" groups in
   Printf.sprintf "%s~%s~%s~%s~%s" (hx r.rr_name) qual ver archs profs
 let structure_s (t : RelLex.rkind elem) =
   match structure t with
-  | Ok es -> cat ";" (L.map (fun e -> cat "," (L.map relrec_s e)) es)
+  | Ok es -> (try cat ";" (L.map (fun e -> cat "," (L.map relrec_s e)) es) with Dump_panic -> "!")
   | _ -> "!"
 
 exception Stop of string
@@ -130,8 +142,23 @@ let state_s (dump : bool) (st : state) : string =
 
 let outcome_s = function 0 -> "ok" | 1 -> "skip" | 2 -> "g1" | 3 -> "g0" | 4 -> "n1" | 5 -> "n0" | 6 -> "ok1" | 7 -> "ok0" | _ -> "?"
 
+(* an operand whose version text is not a debversion::Version: the harness reports n0 *)
+let bad_version_step (st : state) (o : string) : (string * state) option =
+  let unparsable = ESParse (u "28") and unparsable_r = RSParse (u "28") in
+  let via op = (match run_op variant op st with Ok (_, st') -> Some ("n0:-", st') | _ -> None) in
+  match S.split_on_char '/' o with
+  | "ne" :: k :: _ -> via (ONewEntry (nat k, unparsable))
+  | "nr" :: k :: _ -> via (ONewRel (nat k, unparsable_r))
+  | ["sv"; m; _] ->
+    (match has_reg (rreg (nat m)) st with
+     | Ok (true, _) -> (match reg_text (rreg (nat m)) st with
+         | Ok (Some t, _) -> Some ("n0:" ^ hx t, st)
+         | _ -> None)
+     | _ -> None)
+  | _ -> None
+
 let run (dump : bool) (init : string) (prog : string) : string =
-  match init_state variant (initspec_of init) with
+  match (try init_state variant (initspec_of init) with Bad_version -> Err (n_of_int 1)) with
   | Err _ -> "init=ERR" | Panic _ -> "init=PANIC" | OutOfFuel -> "HANG"
   | Ok st0 ->
     (match (try Stdlib.Ok (state_s dump st0) with Stop s -> Stdlib.Error s) with
@@ -142,7 +169,17 @@ let run (dump : bool) (init : string) (prog : string) : string =
          match ops with
          | [] -> L.rev acc
          | o :: rest ->
-           (match run_op variant (op_of o) st with
+           (match (try Stdlib.Ok (op_of o) with Bad_version -> Stdlib.Error ()) with
+            | Stdlib.Error () ->
+              (match bad_version_step st o with
+               | Some (rec_, st') -> go st' rest (rec_ :: acc)
+               | None ->
+                 (* sv through an empty register: skip *)
+                 (match (try Stdlib.Ok (state_s dump st) with Stop s -> Stdlib.Error s) with
+                  | Stdlib.Ok s -> go st rest (Printf.sprintf "skip:%s:-" s :: acc)
+                  | Stdlib.Error s -> L.rev (s :: acc)))
+            | Stdlib.Ok theop ->
+           (match run_op variant theop st with
             | Ok ((code, h), st') ->
               let c = outcome_s (int_of_n code) in
               let hs = (match h with None -> "-" | Some t -> hx t) in
@@ -152,7 +189,7 @@ let run (dump : bool) (init : string) (prog : string) : string =
                   | Stdlib.Error s -> L.rev (s :: acc))
             | Panic _ -> L.rev ("PANIC" :: acc)
             | Err e -> L.rev (("MODEL-ERR" ^ string_of_int (int_of_n e)) :: acc)
-            | OutOfFuel -> L.rev ("HANG" :: acc)) in
+            | OutOfFuel -> L.rev ("HANG" :: acc))) in
        let steps = go st0 ops [] in
        if L.mem "HANG" steps then "HANG" else Printf.sprintf "init=%s|steps=%s" init_s (cat "/" steps))
 
